@@ -53,7 +53,7 @@ Definition body (h : hdr) (subs : list node) (sub : done -> node -> cres) (d : d
       end
   | KDefaultDict =>
       match subs with
-      | [a; b] => then_ (sub d a) (fun d => then_ (emit h (EvFixed (s "collections.defaultdict")) d) (fun d => sub d b))
+      | [a; b] => then_ (sub d a) (fun d => then_ (own d) (fun d => sub d b))      (* C04-F2 repaired: the dumped class itself is resolved *)
       | _ => nothing d
       end
   | KBytes | KBytearray | KSlice | KJson | KSparse | KCached | KQuantileForest => nothing d
